@@ -22,7 +22,7 @@ SHARD = 8
 
 
 def hashseeds(tier):
-    return [0, 1] if tier == 'quick' else list(range(8))
+    return [0, 1] if tier == 'quick' else [0, 1, 2, 3]       # the thorough tier is sized to finish within about 40 minutes
 
 
 def _anbn(eps='_'):
@@ -41,19 +41,19 @@ def gen(rng, tier):
     for e in ['_', 'ε', '']:
         ps.append(_anbn(e))
         ps.append(_pushloop(e))
-    for _ in range(220 if quick else 3000):
+    for _ in range(220 if quick else 1000):
         ps.append(G.random_pda(rng, rng.randint(1, 4), rng.choice(['a', 'ab', 'ab', '']), rng.choice(['x', 'xy']), rng.choice(['_', 'ε', '']),
                                ntrans=rng.randint(1, 8), kinds=rng.choice([None, ['push', 'pop'], ['push', 'noop', 'pop', 'push'], ['replace', 'push', 'pop']])))
     # stack symbols of several characters (PDA constructor): different stacks whose concatenated spellings coincide
     # (['xy'] and ['x', 'y']) are different configurations
-    for _ in range(80 if quick else 1500):
+    for _ in range(80 if quick else 500):
         ps.append(G.random_pda(rng, rng.randint(1, 3), rng.choice(['a', 'ab']), ['x', 'y', 'xy'], rng.choice(['_', '']),
                                ntrans=rng.randint(3, 9), kinds=['push', 'pop', 'push', 'pop', 'noop']))
     spell = [G.spelling_pda(rng) for _ in range(10 if quick else 100)]
     cases = [{'P': p, 'limit': 1000, 'ws': ['aab', 'aabb', 'aa', 'ab', 'aabbb', ''], 'sets': [[['s', []]]]} for p in spell]
     # a limit ABOVE the default: a chain of 1100 epsilon moves has a closure of 1101 configurations; with the limit set to
     # 1200 the accepting end of the chain must be found, with 1050 the closure is truncated
-    for lim in ([1200] if quick else [1200, 1050, 1101]):
+    for lim in ([1200] if quick else [1200, 1050]):
         n = 1100
         chain = {'Q': ['c%d' % i for i in range(n + 1)], 'Sigma': ['a'], 'Gamma': ['x'], 'eps': '_', 'q0': 'c0', 'F': ['c%d' % n],
                  'delta': [['c%d' % i, '_', '_', 'c%d' % (i + 1), '_'] for i in range(n)]}
@@ -66,7 +66,7 @@ def gen(rng, tier):
         cases.append({'P': p, 'limit': limit, 'ws': ws, 'sets': [[['q0', []]], cfgs[:1], cfgs]})
     # dense epsilon graphs: k pairwise epsilon-connected states (k + 1 configurations in the closure, about k*k epsilon moves) with a
     # limit just above the number of configurations: the closure must be complete
-    for _ in range(12 if quick else 200):
+    for _ in range(12 if quick else 80):
         k = rng.randint(3, 6)
         e = rng.choice(['_', ''])
         Q = ['d%d' % i for i in range(k)] + ['z']
@@ -77,7 +77,7 @@ def gen(rng, tier):
         p = {'Q': Q, 'Sigma': ['a'], 'Gamma': ['x'], 'delta': delta, 'q0': 'd0', 'F': ['z'], 'eps': e}
         cases.append({'P': p, 'limit': k + 1 + rng.randint(0, 3), 'ws': ['', 'a', 'aa'], 'sets': [[['d0', []]]]})
     # the same object is queried, its transitions are replaced in place, and it is queried again
-    for _ in range(60 if quick else 1000):
+    for _ in range(60 if quick else 400):
         sg, gm, e = rng.choice(['a', 'ab']), 'xy', rng.choice(['_', ''])
         n = rng.randint(2, 3)
         p1 = G.random_pda(rng, n, sg, gm, e, ntrans=rng.randint(2, 7), kinds=['push', 'pop', 'noop', 'pop'])
